@@ -69,9 +69,12 @@ CcCases ==
       TRUE }
 
 InScope(c) ==
-    \* --unchecked runs nothing: the golden "output" is a placeholder, so
-    \* match strings cannot be satisfied by it (ddSMT stops, C10)
-    /\ c.unchecked => ~c.match_out /\ ~c.match_err
+    \* every combination is in scope.  (An earlier version left out
+    \* --unchecked with a match string, on the grounds that the placeholder
+    \* output of a run that does not happen cannot contain the string; the
+    \* property says that with --unchecked EVERY candidate is accepted and
+    \* nothing is run, whatever else is configured.)
+    TRUE
 
 Choose == /\ ~done
           /\ \E c \in (IF Family = "main" THEN MainCases ELSE CcCases) :
